@@ -9,59 +9,13 @@ From V.C02 Require Import Model Glue.
 Import ListNotations.
 Open Scope N_scope.
 
-Definition run_c02 (l : list N) : list N :=
-  match decode_case l with
-  | None => [0]
-  | Some k =>
-      let c := k_cfg k in
-      let '(wtr, w, ok) := run_writer c (k_wops k) (k_wsc k) writer_init in
-      1 :: header c ++ enc_list enc_wrec wtr ++ [b2n ok] ++
-      (if ok then
-         let '(fx, fw, _) := poll_flush c [] w in
-         let plains := w_frames fw in
-         let e := env_of c plains (k_tamper k) in
-         enc_wrec (fx, fw) ++
-         enc_list (fun x => [x + TAG]) plains ++
-         [e_avail e] ++
-         enc_list enc_rrec (run_reader e (expand (k_reads k)) (k_rsc k) (reader_init c))
-       else [])
-  end.
-
-Definition ok_c02 (case trace : list N) : bool :=
-  match decode_case case, trace with
-  | None, [0] => true
-  | Some k, 1 :: body =>
-      let c := k_cfg k in
-      if (1 <=? c_factor c) && (1 <=? c_wbuf c) then
-        match pall p_trace body with
-        | None => false
-        | Some t =>
-            nlist_eqb (t_header t) (header c) &&
-            t_ok t &&
-            wcalls_ok (k_wops k) (t_wrecs t) &&
-            match t_rest t with
-            | None => false
-            | Some ((fx, fst_, fsent), hdrs, avail, rr) =>
-                let plains := map (fun h => h - TAG) hdrs in
-                let total := sum plains in
-                let items := apply_tamper (k_tamper k) (honest plains) in
-                match fx with WReady _ => true | _ => false end &&
-                match fst_ with WIdle => true | _ => false end &&
-                (fsent =? frames_wire plains) &&
-                forallb (hdr_ok (c_mfl c)) hdrs &&
-                (total =? waccepted (t_wrecs t) (k_wops k)) &&
-                (avail =? tamper_avail (k_tamper k) (honest plains)) &&
-                rcalls_ok (is_clean (k_tamper k)) (clean_prefix items plains 0 avail) total avail
-                          (expand (k_reads k)) rr 0
-            end
-        end
-      else true
-  | _, _ => false
-  end.
-
-Lemma run_c02_in_sync : run_c02 = run_case.
+(* the other property's own composition, used as is (ocaml/build_model.sh aliases the requested
+   names after monolithic extraction, so no copy is needed any more) *)
+Definition run_c02 : list N -> list N := V.C02.Glue.run_case.
+Definition ok_c02 : list N -> list N -> bool := V.C02.Glue.prop_ok.
+Lemma run_c02_in_sync : run_c02 = V.C02.Glue.run_case.
 Proof. reflexivity. Qed.
-Lemma ok_c02_in_sync : ok_c02 = prop_ok.
+Lemma ok_c02_in_sync : ok_c02 = V.C02.Glue.prop_ok.
 Proof. reflexivity. Qed.
 
 (* the read buffer the socket allocates once (bytes): read-ahead window + one maximal frame *)
